@@ -392,19 +392,18 @@ Proof.
 Qed.
 
 (* directory creation + migration + scan *)
-Definition scanned (t : tree) : result (list sfile) :=
-  rbind (mkdirs t) (fun t1 => rbind (migrate t1) scan_tree).
+Definition scanned (t : tree) : result (list sfile) := scan_all t.
 
 Lemma startup_scanned mx hd t : startup mx hd t = rbind (scanned t) (load_files mx hd).
 Proof.
-  unfold startup, scanned. destruct (mkdirs t) as [t1| | |]; simpl; try reflexivity.
+  unfold startup, scanned, scan_all. destruct (mkdirs t) as [t1| | |]; simpl; try reflexivity.
   destruct (migrate t1) as [t2| | |]; simpl; reflexivity.
 Qed.
 
 Theorem scanned_ok_population t : population_ok t = true ->
   exists files, scanned t = Ok files /\ Forall file_fits files.
 Proof.
-  intros Hp. unfold scanned.
+  intros Hp. unfold scanned, scan_all.
   destruct (mkdirs_ok t Hp) as (t1 & -> & Hready). simpl.
   destruct (migrate_ok t1 Hready) as (t2 & -> & Hok & Hno). simpl.
   destruct (scan_tree_ok t2 Hok Hno) as (fs & -> & HF).
